@@ -17,7 +17,7 @@ def problems(rng: random.Random):
         "forest": ({"type": "forest", "S": 8, "r1": 4.0, "r2": 2.0, "p": 0.1}, True),
         "forest12": ({"type": "forest", "S": 12, "p": 0.25}, True),
         "de_moor": ({"type": "de_moor", "max_demand": 6, "max_useful_life": 2, "lead_time": 1,
-                     "max_order_quantity": 4}, True),
+                     "max_order_quantity": 4, "issue_policy": "fifo"}, True),
         "hendrix": ({"type": "hendrix", "max_useful_life": 1, "max_order_quantity_a": 3,
                      "max_order_quantity_b": 3, "demand_poisson_mean_a": 1.5, "demand_poisson_mean_b": 1.0}, True),
         "mirjalili": ({"type": "mirjalili", "max_demand": 3, "max_useful_life": 2, "max_order_quantity": 3,
